@@ -1,10 +1,14 @@
 package rules
 
 import (
+	"encoding/json"
 	"fmt"
 	"go/ast"
 	"go/token"
 	"go/types"
+	"os"
+	"os/exec"
+	"path/filepath"
 	"sort"
 	"strings"
 
@@ -755,11 +759,11 @@ func canonRef(s string) string {
 	return b.String()
 }
 
-func runSOS(c *core.Ctx) []core.Obligation {
-	var obs []core.Obligation
+// sosSequence extracts the ordered list of tested quantities from symbolicallyPerturbedSign (canonical polynomial strings).
+func sosSequence(c *core.Ctx) ([]string, *types.Func, bool) {
 	fn := c.LookupFunc("s2", "", "symbolicallyPerturbedSign")
 	if fn == nil || c.Decl(fn) == nil {
-		return append(obs, core.Ob("R-SOS", "anchor", "-", "", core.Violated, "unresolved anchor: symbolicallyPerturbedSign"))
+		return nil, nil, false
 	}
 	decl := c.Decl(fn)
 	info := c.Pkgs["s2"].TypesInfo
@@ -767,11 +771,12 @@ func runSOS(c *core.Ctx) []core.Obligation {
 	pi := 0
 	for _, f := range decl.Type.Params.List {
 		for _, nm := range f.Names {
-			names[info.Defs[nm]] = []string{"a", "b", "c", "bc"}[pi]
+			if pi < 4 {
+				names[info.Defs[nm]] = []string{"a", "b", "c", "bc"}[pi]
+			}
 			pi++
 		}
 	}
-	// walk the body in order: each assignment to the tested variable followed by `if v != 0 { return Direction(v) }`
 	var seq []string
 	var lastAssigned ast.Expr
 	for _, st := range decl.Body.List {
@@ -795,6 +800,16 @@ func runSOS(c *core.Ctx) []core.Obligation {
 			}
 		}
 	}
+	return seq, fn, true
+}
+
+func runSOS(c *core.Ctx) []core.Obligation {
+	var obs []core.Obligation
+	seq, fn, ok := sosSequence(c)
+	if !ok {
+		return append(obs, core.Ob("R-SOS", "anchor", "-", "", core.Violated, "unresolved anchor: symbolicallyPerturbedSign"))
+	}
+	decl := c.Decl(fn)
 	for i, ref := range sosReference {
 		construct := fmt.Sprintf("term#%02d", i+1)
 		want := canonRef(ref)
@@ -811,6 +826,62 @@ func runSOS(c *core.Ctx) []core.Obligation {
 	}
 	if len(seq) != len(sosReference) {
 		obs = append(obs, core.Ob("R-SOS", "length", c.Pos(decl.Pos()), fn.FullName(), core.Violated, fmt.Sprintf("%d tested terms, %d expected", len(seq), len(sosReference))))
+	}
+	return obs
+}
+
+func init() {
+	core.Register(&core.Rule{
+		Name: "R-SOSDERIVE",
+		Clause: "C02 (thorough tier): the coefficient sequence that the symbolic perturbation must test is DERIVED by computer algebra (sympy: mixed partial derivatives of the 3x3 determinant in order of " +
+			"the eps^(2^k) weights of the documented perturbation order; a term is skipped when it reduces to zero modulo a Groebner basis of the coefficients already known to vanish; the sequence ends at " +
+			"the first non-zero constant) and compared, polynomial by polynomial with signs, against the sequence extracted from the source. This validates both the code and the reference table of R-SOS.",
+		Min:          1,
+		ThoroughOnly: true,
+		Run:          runSOSDerive,
+	})
+}
+
+func runSOSDerive(c *core.Ctx) []core.Obligation {
+	var obs []core.Obligation
+	seq, fn, ok := sosSequence(c)
+	if !ok {
+		return append(obs, core.Ob("R-SOSDERIVE", "derivation", "-", "", core.Violated, "unresolved anchor: symbolicallyPerturbedSign"))
+	}
+	site := c.Pos(fn.Pos())
+	for _, s := range seq {
+		if s == "?" || strings.HasPrefix(s, "const:") {
+			return append(obs, core.Ob("R-SOSDERIVE", "derivation", site, fn.FullName(), core.Undecided, "a tested quantity could not be read as a polynomial: "+s))
+		}
+	}
+	tmp, err := os.CreateTemp("", "sos-*.json")
+	if err != nil {
+		return append(obs, core.Ob("R-SOSDERIVE", "derivation", site, fn.FullName(), core.Undecided, err.Error()))
+	}
+	defer os.Remove(tmp.Name())
+	b, _ := json.Marshal(seq)
+	tmp.Write(b)
+	tmp.Close()
+	script := filepath.Join(c.VerifDir, "sos", "derive_sos.py")
+	out, err := exec.Command("python3-vt", script, tmp.Name()).Output()
+	if err != nil {
+		return append(obs, core.Ob("R-SOSDERIVE", "derivation", site, fn.FullName(), core.Undecided, "the sympy derivation could not be run (python3-vt with sympy is required in the thorough tier): "+err.Error()))
+	}
+	var res struct {
+		OK      bool     `json:"ok"`
+		Derived []string `json:"derived"`
+		Terms   []string `json:"derived_terms"`
+		Diff    string   `json:"diff"`
+	}
+	if err := json.Unmarshal(out, &res); err != nil {
+		return append(obs, core.Ob("R-SOSDERIVE", "derivation", site, fn.FullName(), core.Undecided, "unreadable output of the derivation: "+err.Error()))
+	}
+	if res.OK {
+		obs = append(obs, core.Ob("R-SOSDERIVE", "derivation", site, fn.FullName(), core.Discharged,
+			fmt.Sprintf("the %d tested quantities equal, with signs, the coefficients derived for the terms %s", len(res.Derived), strings.Join(res.Terms, ", "))))
+	} else {
+		obs = append(obs, core.Ob("R-SOSDERIVE", "derivation", site, fn.FullName(), core.Violated,
+			"the source does not test the coefficient sequence of the documented perturbation: "+res.Diff))
 	}
 	return obs
 }
